@@ -224,6 +224,17 @@ def index(ctx: Any) -> List[Ob]:
         wn = [n for n in pc.nodes if any(call_name(c) == worker and isinstance(c.func, ast.Attribute) and self_attr(c.func, pm.params[0]) for c in n.calls())]
         skip = pc.path_avoiding(pc.entry, lambda n: n is pc.exit, lambda n: n in wn) if wn else [pc.entry]
         obs.append(ob(R, pm, f'self.{worker}(...)', f'{pub} applies the change to the registry on every path', bool(wn) and skip is None))
+    # ... and the instance's own routines reach those entry points with the description they were handed: registering adds
+    # it, updating re-inserts it (`after a service is updated ... replies reflect only the new state`), unregistering removes it
+    zc_c = prog.cls('zeroconf._core.Zeroconf')
+    for zname, entry in (('async_register_service', 'async_add'), ('async_update_service', 'async_update'), ('async_unregister_service', 'async_remove')):
+        zm = zc_c.methods.get(zname)
+        if zm is None:
+            raise AnalysisError(f'anchor vanished: Zeroconf.{zname}')
+        zcfg = cfg_of(zm.node)
+        hit = [n for n in zcfg.nodes if any(call_name(c) == entry and isinstance(c.func, ast.Attribute) and self_attr(c.func.value, zm.params[0]) == 'registry' and c.args and norm(c.args[0]) in (zm.params[1], f'[{zm.params[1]}]') for c in n.calls())]
+        byp = zcfg.must_pass_before_exit(zcfg.entry, lambda n: n in hit) if hit else [zcfg.entry]
+        obs.append(ob(R, zm, f'self.registry.{entry}({zm.params[1]})', f'{zname} hands the description to the registry ({entry}) on every path that returns', bool(hit) and byp is None, '' if hit else f'no call of registry.{entry} with the description'))
     gi = reg.methods.get('_async_get_by_index')
     if gi is not None:
         gme = gi.params[0]
